@@ -106,20 +106,111 @@ func (s *stackGen) retStmt(ind int, vars []string) {
 	case 0:
 		s.line(ind, "return")
 	case 1:
-		if s.r.chance(30) {
+		switch x := s.r.intn(100); {
+		case x < 30:
 			s.line(ind, "return one(%s)", s.expr(vars, 1))
-		} else {
+		case x < 40: // a literal without results as an argument of the returned call
+			s.line(ind, "return each(mk(%s), func(q int) { fmt.Println(\"each\", q) })", s.atom(vars))
+			s.kinds["return call(literal argument)"]++
+		case x < 48:
+			s.line(ind, "return apply1(func(q int) int { return one(q * 2) }, %s)", s.atom(vars))
+			s.kinds["return call(literal argument)"]++
+		default:
 			s.line(ind, "return %s", np(s.expr(vars, 1)))
 		}
 	case 2:
-		if s.r.chance(40) {
+		switch x := s.r.intn(100); {
+		case x < 35:
 			s.line(ind, "return pair(%s, %s)", s.atom(vars), s.atom(vars))
-		} else {
+		case x < 50:
+			s.line(ind, "return apply2(func(q int) (int, int) { return pair(q, %d) }, %s)", s.r.intn(5), s.atom(vars))
+			s.kinds["return call(literal argument)"]++
+		default:
 			s.line(ind, "return %s, %s", np(s.expr(vars, 1)), s.expr(vars, 1))
 		}
 	default:
-		s.line(ind, "return %s, %s, \"r\"", np(s.expr(vars, 1)), s.atom(vars))
+		if s.r.chance(35) {
+			s.line(ind, "return triple(%s)", s.atom(vars))
+		} else {
+			s.line(ind, "return %s, %s, \"r\"", np(s.expr(vars, 1)), s.atom(vars))
+		}
 	}
+}
+
+// literal emits a function literal INSIDE the function being generated: 0, 1 or 2 results (whatever the
+// enclosing function declares), as a local variable, immediately called, as an argument of a call, or
+// nested two deep; the literals capture nothing (goatlang has no closures): their bodies use only their
+// own parameters, their own locals and package-level functions, and end in "return call(...)" forms.
+// The enclosing function goes on afterwards and ends in its own return (retStmt: often "return call(...)").
+func (s *stackGen) literal(ind int, vars []string) []string {
+	a := s.atom(vars)
+	k := 1 + s.r.intn(4)
+	switch s.r.intn(8) {
+	case 0: // local variable, one result, early return inside a loop
+		h := s.fresh("h")
+		s.line(ind, "%s := func(x int) int {", h)
+		s.line(ind+1, "for i := 0; i < 3; i++ {")
+		s.line(ind+2, "if i == x {")
+		s.line(ind+3, "return one(i + %d)", k)
+		s.line(ind+2, "}")
+		s.line(ind+1, "}")
+		s.line(ind+1, "return one(x * %d)", k)
+		s.line(ind, "}")
+		s.line(ind, "fmt.Println(\"lit1\", %s(%s), %s(1))", h, a, h)
+	case 1: // local variable, two results
+		h := s.fresh("h")
+		m, n := s.fresh("m"), s.fresh("n")
+		s.line(ind, "%s := func(x int) (int, int) {", h)
+		s.line(ind+1, "if x > %d {", k)
+		s.line(ind+2, "return pair(x, %d)", k)
+		s.line(ind+1, "}")
+		s.line(ind+1, "return x, 0")
+		s.line(ind, "}")
+		s.line(ind, "%s, %s := %s(%s)", m, n, h, a)
+		s.line(ind, "fmt.Println(\"lit2\", %s, %s)", m, n)
+		vars = append(vars, m, n)
+	case 2: // local variable, no result
+		h := s.fresh("h")
+		s.line(ind, "%s := func(x int) {", h)
+		s.line(ind+1, "fmt.Println(\"lit0\", x)")
+		s.line(ind+1, "if x > %d {", k)
+		s.line(ind+2, "return")
+		s.line(ind+1, "}")
+		s.line(ind+1, "one(x)")
+		s.line(ind, "}")
+		s.line(ind, "%s(%s)", h, a)
+	case 3: // immediately called
+		v := s.fresh("v")
+		s.line(ind, "%s := func(x int) int { return one(x) + %d }(%s)", v, k, a)
+		s.line(ind, "func() { fmt.Println(\"imm\", %d) }()", k)
+		s.line(ind, "fmt.Println(\"imm\", %s)", v)
+		vars = append(vars, v)
+	case 4: // argument of a call statement whose result is dropped
+		s.line(ind, "each(mk(%s), func(x int) { fmt.Println(\"e\", x) })", a)
+	case 5: // argument of calls with one and two results
+		m, n := s.fresh("m"), s.fresh("n")
+		s.line(ind, "fmt.Println(\"ap\", apply1(func(x int) int { return one(x * %d) }, %s))", k, a)
+		s.line(ind, "%s, %s := apply2(func(c int) (int, int) { return pair(c, %d) }, %s)", m, n, k, a)
+		s.line(ind, "fmt.Println(\"ap\", %s, %s)", m, n)
+		vars = append(vars, m, n)
+	case 6: // nested two deep
+		gname := s.fresh("g")
+		m, n := s.fresh("m"), s.fresh("n")
+		s.line(ind, "%s := func(p int) (int, int) {", gname)
+		s.line(ind+1, "k := func(b int) int { return one(b + %d) }", k)
+		s.line(ind+1, "e := func(b int) { fmt.Println(\"in\", b) }")
+		s.line(ind+1, "e(p)")
+		s.line(ind+1, "return pair(k(p), p)")
+		s.line(ind, "}")
+		s.line(ind, "%s, %s := %s(%s)", m, n, gname, a)
+		s.line(ind, "fmt.Println(\"nest\", %s, %s)", m, n)
+		vars = append(vars, m, n)
+	default: // defined and dropped
+		s.line(ind, "_ = func() (int, int) { return pair(%d, 2) }", k)
+		s.line(ind, "_ = func(x int) { one(x) }")
+	}
+	s.kinds["function literal inside a function"]++
+	return vars
 }
 
 // exit emits a guarded early exit
@@ -351,6 +442,8 @@ func (s *stackGen) stmts(ind, depth, n int, vars []string) []string {
 				s.line(ind, "fmt.Println(vsum(%s), vsum(%s, %s), vsum(1, mk(%s)...))", s.atom(vars), s.atom(vars), s.atom(vars), s.atom(vars))
 			}
 			s.kinds["literal / container statements"]++
+		case x < 87:
+			vars = s.literal(ind, vars)
 		case x < 90 && len(vars) > 0:
 			s.line(ind, "fmt.Println(\"s\", %s)", strings.Join(vars[max0(len(vars)-4):], ", "))
 		default:
@@ -431,6 +524,21 @@ func vsum(base int, xs ...int) int {
 
 func mk(n int) []int {
 	return []int{n, n + 1, n + 2}
+}
+
+func each(xs []int, f func(int)) int {
+	for _, x := range xs {
+		f(x)
+	}
+	return int(len(xs))
+}
+
+func apply1(f func(int) int, x int) int {
+	return f(x)
+}
+
+func apply2(f func(int) (int, int), x int) (int, int) {
+	return f(x)
 }
 
 func deep(n int, acc int) int {
@@ -555,6 +663,7 @@ func genStatementSnippet(r *rng) string {
 	sb.WriteString("var gt = &T{v: 3, s: \"g\"}\nvar calls int\nfunc one(p int) int {\n\tcalls++\n\treturn p\n}\nfunc isPos(p int) bool {\n\treturn p > 0\n}\n")
 	sb.WriteString("func pair(a int, b int) (int, int) {\n\treturn b, a\n}\nfunc triple(a int) (int, int, string) {\n\treturn a, a * 2, \"t\"\n}\n")
 	sb.WriteString("func vsum(base int, xs ...int) int {\n\tfor _, x := range xs {\n\t\tbase += x\n\t}\n\treturn base\n}\nfunc mk(n int) []int {\n\treturn []int{n, n + 1, n + 2}\n}\n")
+	sb.WriteString("func each(xs []int, f func(int)) int {\n\tfor _, x := range xs {\n\t\tf(x)\n\t}\n\treturn int(len(xs))\n}\nfunc apply1(f func(int) int, x int) int {\n\treturn f(x)\n}\nfunc apply2(f func(int) (int, int), x int) (int, int) {\n\treturn f(x)\n}\n")
 	sb.WriteString("func deep(n int, acc int) int {\n\tif n <= 0 {\n\t\treturn acc\n\t}\n\treturn deep(n-1, acc+1)\n}\n")
 	s.rets = 1
 	s.line(0, "func body(p0 int) int {")
